@@ -43,7 +43,7 @@ def gen_layout(rng, style):
 
 def cases(ctx):
     rng = ctx.rng('files')
-    for j in range((2400 if ctx.tier == 'quick' else 40000) // ctx.nshards + 1):
+    for j in range((2400 if ctx.tier == 'quick' else 100000) // ctx.nshards + 1):
         yield {'kind': 'file', 'salt': rng.randint(0, 10 ** 9)}
     for j in range((60 if ctx.tier == 'quick' else 600) // ctx.nshards + 1):
         yield {'kind': 'refusal', 'salt': rng.randint(0, 10 ** 9), 'what': rng.choice(['no_trailer', 'unconfigured_table'])}
